@@ -491,6 +491,14 @@ class FitBase(FileIOMixin, object):
             raise ValueError("Fit data and cost function are not compatible: %s" % _reason)
         self._set_new_parametric_model()
         self._param_model._on_error_change_callback = self._on_error_change
+        # whatever was computed from the previous container and parametric model is outdated
+        self._fitter.reset_minimizer()
+        self._fitter.parameter_to_minimize = self._cost_function.name
+        for _axis in self._AXES:
+            for _type in ("data", "model"):
+                for _suffix in ("", "_error", "_cov_mat"):
+                    _node_name = _type + _suffix if _axis is None else "_".join((_axis, _type)) + _suffix
+                    self._nexus.get(_node_name).mark_for_update()
 
     @property
     def data_error(self):
